@@ -72,7 +72,9 @@ func (c *Component) initSessionPPP(s *Session) {
 		HandlePAP:  func(code, id uint8, data []byte) error { return c.handlePAPPacket(s, code, id, data) },
 		HandleCHAP: func(code, id uint8, data []byte) error { return c.handleCHAPPacket(s, code, id, data) },
 		OnEchoReq: func(id uint8, data []byte) {
-			if s.Phase != ppp.PhaseOpen && s.Phase != ppp.PhaseNetwork {
+			// RFC 1661 §5.8: an Echo-Request received in the LCP Opened
+			// state MUST be answered, also during authentication.
+			if s.LCP.FSM().State() != ppp.Opened {
 				return
 			}
 			// RFC 1661 §5.8: the Magic-Number in the reply is the
